@@ -82,21 +82,22 @@ def custom(ctx):
     cases, stats = ctx.run_harness(["c08", "--tier", ctx.tier, "--seed", str(ctx.seed)])
     ctx.stats.extend(stats)
     account(cases)
-    ctx.extra["model_comparison"] = ("C08.lex and C08.cond requests are compared with the Lean model (TokenStream bookkeeping, "
-                                     "ConditionChain); C08.compile requests are the property's own oracle on the real compiler "
+    ctx.extra["model_comparison"] = ("C08.lex, C08.cond and C08.defscan requests are compared with the Lean model (TokenStream bookkeeping, "
+                                     "ConditionChain, Macro::parse + apply_macros with locations); C08.compile requests are the property's own oracle on the real compiler "
                                      "(worker survival, rendered diagnostics, time budget) and have no model prediction")
 
 
 SPEC = {
     "id": "C08",
-    "gens": ["PanicSites"],
-    "lean_modules": ["RsslVerif.Thm.C08"],
+    "gens": ["PanicSites", "ArithSites"],
+    "lean_modules": ["RsslVerif.Thm.C08", "RsslVerif.Model.DefinedLoc", "RsslVerif.Lemmas.DefinedLoc", "RsslVerif.Lemmas.ArithClasses"],
     "theorems": [T + n for n in [
         "panic_sites_classified", "parser_loops_as_modelled", "list_uses_reviewed", "parse_list_progress",
         "parse_list_fuel_irrelevant", "parse_multiple_progress", "parse_multiple_diverges_without_progress",
         "parse_optional_total", "root_loop_progress", "lex_shape_as_modelled", "lex_progress",
         "cond_shape_as_modelled", "cond_chain_total", "cond_depth_bounded", "macro_guard_as_modelled",
-        "stage_errors_rendered"]],
+        "stage_errors_rendered", "arith_sites_classified", "defined_shape_as_modelled", "defined_location_safe",
+        "defined_location_needs_plain_rescan", "defined_indices_in_range", "scan_output_has_no_concat"]],
     "harness": "c08",
     "custom": custom,
     "finding_key": finding_key,
@@ -105,19 +106,32 @@ SPEC = {
             "rssl::compile under catch_unwind on: byte soups and token soups up to 4 KB (with preprocessor directives, extreme "
             "literals, self-referential macros and includes), repetition soups (one unit nested or repeated up to 4 KB, balanced "
             "or not), grammar-generated programs (expression/statement nesting <= 12, <= 6 cast-like prefixes per expression) and "
-            "their single-token mutations, whole-file programs with pipelines and their mutations, the repository's own inputs "
-            "under tests/ and byte/line/token mutations of them; every input on the 4 targets with the pipeline mode "
-            "{all, named, no-pipeline}, the layout-validation flag and an optional command-line define rotating (quick) or "
-            "crossed (thorough); worker death, panic, timeout, an empty diagnostic or an exceeded budget is a failure, keyed by "
-            "panic site or by (signal, stage); non-trivial = the input compiled through every stage",
+            "their single-token mutations, whole-file programs with pipelines and their mutations, preprocessor-grammar programs "
+            "(entry file + up to 4 in-memory headers + up to 4 command-line defines: macros defined in one file and used from "
+            "another, defined X / defined(X) / function-like macros expanding to defined, ## at body ends, recursive macros, "
+            "300-parameter macros, directives inside macro arguments, include guards, #pragma once, missing and cyclic includes, "
+            "stray # forms, line splices anywhere) and their token mutations, one template per syntactic category of the front "
+            "end (354 categories / 707 variants, each run once per check, plus random combinations and their mutations), typed "
+            "constant expressions in every constant context, the repository's own inputs under tests/ and byte/line/token "
+            "mutations of them; every input on the 4 targets (2 for the preprocessor / constant / single-category streams in "
+            "quick) with the pipeline mode {all, named, no-pipeline}, the layout-validation flag and an optional command-line "
+            "define rotating (quick) or crossed (thorough); worker death, panic, timeout, an empty diagnostic or an exceeded "
+            "budget is a failure, keyed by panic site or by (signal, stage), minimised over files, defines, lines and bytes; "
+            "model-compared side streams: C08.lex (TokenStream bookkeeping), C08.cond (ConditionChain), C08.defscan (Macro::parse "
+            "+ apply_macros with apply_defined on the real lexer's located tokens); non-trivial = the input compiled through every stage",
     "level_text": "Proof of the logic, test of the runtime.  Proved for all inputs: every explicit panic site in the current sources "
-                  "is a reviewed, classified one (regenerated inventory; a new site breaks the obligation); the parser's list "
+                  "is a reviewed, classified one, and so is every unchecked + - *, `as` cast, index and slice in the preprocessor / "
+                  "lexer core (two regenerated inventories; a new site or changed operands break the obligation); the parser's list "
                   "combinators, the root-definition loop and TokenStream::read_to_end terminate within |input|+1 (resp. +2) "
                   "iterations for every element parser / single-token lexer that consumes on success — and do not terminate "
                   "otherwise (witness); read_to_end can never trip the end-of-stream assert; the condition chain is total and its "
-                  "three diagnostics depend on #if/#endif depth alone.  Not provable and therefore observed: stack depth, "
-                  "allocation, wall-clock time and the unmodelled 95 % of the compiler — supervised worker processes run the real "
-                  "compile() on generated and mutated inputs; every crash found is listed by site/stage in known_findings.jsonl.",
+                  "three diagnostics depend on #if/#endif depth alone; the location subtraction of the `defined` operation cannot "
+                  "overflow for any macro table, any ## oracle and any command line of one lexer run, because the two recursive "
+                  "scans run without apply_defined (flags re-extracted from the source; with the caller's flag there is a proved "
+                  "counterexample), its two index computations stay in range, and a completed scan leaves no Concat token.  "
+                  "Not provable and therefore observed: stack depth, allocation, wall-clock time and the unmodelled 95 % of the "
+                  "compiler — supervised worker processes run the real compile() on generated and mutated inputs (86 % line "
+                  "coverage of /repo in a quick run); every crash found is listed by site/stage in known_findings.jsonl.",
     "trusted_base": [
         "Lean 4.33 kernel; axioms propext / Classical.choice / Quot.sound only",
         "tools/gens/c08.py: textual inventory of panic!/todo!/unimplemented!/unreachable!/assert*/unwrap/expect sites outside "
@@ -125,7 +139,17 @@ SPEC = {
         "ConditionChain, the macro_disabled bracket and compile()'s error arms — re-run on /repo's working tree every time",
         "Lemmas/PanicClasses.lean: the class and reason of each site is a reviewed reading of the code (with targeted probes of the "
         "real compiler), not a theorem about the Rust code; implicit panics (indexing, arithmetic overflow, RefCell, slicing, "
-        "stack exhaustion) have no syntactic marker and are covered by the supervised run only",
+        "stack exhaustion) outside preprocess.rs / lexer.rs / condition_parser.rs / location.rs have no inventory and are covered "
+        "by the supervised run only",
+        "tools/gens/_c08_arith.py: operator-level reading of the four core files (binary + - * and their compound forms, `as` "
+        "casts to numeric types, x[..] after an operand; method calls such as split_at / wrapping_* are not sites); "
+        "Lemmas/ArithClasses.lean: class and invariant of each of the 162 sites is a reviewed reading (7 point at a Lean theorem, "
+        "12 are `resource-bound`: they overflow only with 4 GiB of registered text or usize::MAX elements)",
+        "Model/DefinedLoc.lean mirrors Macro::parse, split_macro_args, find_single_macro, apply_single_macro by hand; it is tied "
+        "to the code by 16 regex facts + the two re-extracted rescan flags (defined_shape_as_modelled) and by the C08.defscan "
+        "correspondence on the real lexer's tokens; the ## operation is an abstract oracle (assumed not to produce Token::Concat, "
+        "which the lexer cannot); command-line tokens are assumed to come from one lexer run (monotone locations: C10 spans_tile, "
+        "C08.lex oracle)",
         "the progress hypotheses of the loop theorems (an element parser consumes a token on success; the single-token lexer "
         "consumes a byte) are tied to the code by the reviewed list of combinator uses and by the C08.lex correspondence",
         "the supervised run sees only the inputs it generates; distributions are in the evidence",
